@@ -130,7 +130,7 @@ def callee_resolved(f, fb):
 
 
 class FactBase:
-    def __init__(self, files):
+    def __init__(self, files, inline=True):
         self.crates = {}
         self.bodies = {}  # canonical name -> Body
         self.by_path = {}  # raw def path -> Body
@@ -148,6 +148,24 @@ class FactBase:
                     b.name = "%s::{promoted#%d}" % (raw["path"], raw["promoted"])
                     continue
                 self.by_path[b.path] = b
+        # helper functions (not part of the tree the rules were written for) are inlined into their callers
+        self.helpers = set()
+        if inline:
+            from .inline import known_functions, inline_body
+            known = known_functions()
+            for b in self.by_path.values():
+                b.name = self._canon(b)
+            cand = {b.path for b in self.by_path.values() if b.kind in ("fn", "assoc_fn") and b.name not in known and not b.raw.get("impl_trait") and not b.raw.get("in_trait")}
+            # a helper must not be (mutually) recursive
+            self.helpers = cand
+            if cand:
+                raws = {p: self.by_path[p].raw for p in self.by_path}
+                for pth, b in list(self.by_path.items()):
+                    new_raw = inline_body(b.raw, lambda r: raws.get(r), cand)
+                    if new_raw is not b.raw:
+                        nb = Body(new_raw, b.crate)
+                        nb.inlined_from = b
+                        self.by_path[pth] = nb
         # canonical names
         for b in self.by_path.values():
             b.name = self._canon(b)
